@@ -18,8 +18,55 @@ from harness import core, influence_engine as eng
 LEVEL = "model_checking"
 
 
+def generic_job(job):
+    """Numerical cross-check of the last sentence of the property (not decided by the specification): for generic
+    non-commuting systems (random Hermitian H, Lindblad terms, explicit time dependence), real spectral densities and
+    diagonal / non-diagonal couplings, TEMPO and PT-TEMPO + compute_dynamics agree to within a small multiple of the
+    truncation tolerance (<= 100 epsrel), and the agreement tightens when the tolerance is tightened."""
+    import oqupy
+    from harness import probes
+    seed, td, lind, kmem, unique = job
+    r = np.random.default_rng(seed)
+    sx = np.array([[0, 1], [1, 0]], complex)
+    sy = np.array([[0, -1j], [1j, 0]])
+    sz = np.diag([1.0, -1.0]).astype(complex)
+    a, b, c = r.random(3)
+    if td:
+        system = oqupy.TimeDependentSystem(
+            lambda t: (0.3 + a) * sx * np.cos(2 * t) + (0.2 + b) * sz + c * 0.3 * sy,
+            gammas=[lambda t: 0.2 * (1 + 0.5 * np.sin(t))] if lind else None,
+            lindblad_operators=[lambda t: sx - 1j * sy] if lind else None)
+    else:
+        system = oqupy.System((0.3 + a) * sx + (0.2 + b) * sz + 0.3 * c * sy, gammas=[0.2] if lind else None,
+                              lindblad_operators=[sx - 1j * sy] if lind else None)
+    corr = oqupy.PowerLawSD(alpha=0.2 + 0.3 * r.random(), zeta=1.0 if seed % 2 else 3.0, cutoff=3.0,
+                            cutoff_type="exponential", temperature=0.0 if seed % 3 else 0.8)
+    bath = oqupy.Bath([0.5 * sz, 0.5 * sx, 0.3 * sx + 0.4 * sz][seed % 3], corr)
+    kw = {} if kmem is None else {"dkmax": kmem, "add_correlation_time": 0.3}
+    rho0 = probes.generic_rho(2, seed)
+    n, start = 8, 0.25
+    diffs = []
+    for eps in (1e-5, 1e-8):
+        params = oqupy.TempoParameters(dt=0.1, epsrel=eps, **kw)
+        d1 = oqupy.Tempo(system, bath, params, rho0, start, unique=unique).compute(start + n * 0.1 + 0.02, progress_type="silent")
+        pt = oqupy.PtTempo(bath, start, start + n * 0.1 + 0.02, params, unique=unique).get_process_tensor(progress_type="silent")
+        d2 = oqupy.compute_dynamics(system, initial_state=rho0, process_tensor=pt, start_time=start, progress_type="silent")
+        diffs.append(float(np.max(np.abs(np.array(d1.states) - np.array(d2.states)))))
+    out = []
+    if diffs[0] > 100 * 1e-5 or diffs[1] > 100 * 1e-8:
+        out.append({"what": "generic-agreement", "diffs": diffs})
+    if not diffs[1] < diffs[0]:
+        out.append({"what": "agreement-does-not-tighten", "diffs": diffs})
+    return out
+
+
 def run(ctx):
     quick = ctx.tier == "quick"
+    gjobs = [(ctx.seed + i, bool(i % 2), bool((i // 2) % 2), (None, 4)[i % 2], bool(i % 3 == 0)) for i in range(6 if quick else 24)]
+    for j, mm in zip(gjobs, core.pmap(generic_job, gjobs)):
+        ctx.case({"generic": {"seed": j[0], "time_dependent": j[1], "lindblad": j[2], "dkmax": j[3], "unique": j[4]}}, nontrivial=True)
+        for x in mm:
+            ctx.violation("C02:numeric:%s" % x["what"], "%s: %s" % (j, x), {"generic": list(j)})
     consts = {
         "MaxN": "4" if quick else "5",
         "MinN": "2",
@@ -66,12 +113,17 @@ def run(ctx):
                 "num_steps=n<N on the N-step PT, unique}; both algorithms are compared with the same spec state, "
                 "hence with each other")
     ctx.exhaustive = True
-    ctx.assumptions += ["agreement 'within truncation tolerance' for generic (non-permutation) Hamiltonians is numerical and not covered; epsrel=1e-15 in probe runs"]
+    ctx.assumptions += ["agreement 'within truncation tolerance' for generic (non-permutation) Hamiltonians: numerical cross-check only (<= 100 epsrel at epsrel 1e-5 and 1e-8, and tightening); epsrel=1e-15 in probe runs"]
 
 
 def replay(ctx, rep):
     core._init_worker()
     c = rep["case"]
+    if "generic" in c:
+        ctx.case({"replay": True})
+        for x in generic_job(tuple(c["generic"])):
+            ctx.violation("C02:replay:" + x["what"], str(x), c)
+        return
     res = eng.run_variant({"case": c["case"], "variant": c["variant"], "seed": rep.get("seed", 0)})
     ctx.case(eng.case_id(c["case"], c["variant"]))
     for mm in res["mismatch"]:
